@@ -4,6 +4,7 @@ import (
 	"go/ast"
 	"go/token"
 	"go/types"
+	"strings"
 
 	"golang.org/x/tools/go/cfg"
 )
@@ -15,8 +16,9 @@ type Flow struct {
 	G    *cfg.CFG
 	info *types.Info
 
-	preds    map[*cfg.Block][]*cfg.Block
-	switchOf map[*ast.CaseClause]*ast.SwitchStmt
+	preds      map[*cfg.Block][]*cfg.Block
+	switchOf   map[*ast.CaseClause]*ast.SwitchStmt
+	infeasible map[[2]int32]bool
 }
 
 func (c *Ctx) flow(f *FuncInfo) *Flow {
@@ -258,6 +260,7 @@ func (fl *Flow) solve(a *Analysis) {
 		return
 	}
 	a.in[fl.G.Blocks[0]] = a.Entry
+	dead := fl.infeasibleEdges()
 	work := []*cfg.Block{fl.G.Blocks[0]}
 	for len(work) > 0 {
 		b := work[0]
@@ -270,6 +273,9 @@ func (fl *Flow) solve(a *Analysis) {
 			s = a.Node(n, s)
 		}
 		for i, succ := range b.Succs {
+			if dead[[2]int32{b.Index, int32(i)}] {
+				continue // this branch cannot be taken (see infeasibleEdges)
+			}
 			t := s
 			if a.Edge != nil {
 				t = a.Edge(b, i, t)
@@ -605,4 +611,279 @@ func sentinelCond(info *types.Info, e ast.Expr, sentinel types.Object) (known, e
 		}
 	}
 	return false, false
+}
+
+// ---- nil-ness of local variables: which branch edges cannot be taken ----
+//
+// The statement inliner (and hand-written code) produces shapes like
+//
+//	if e1 == nil { ...; goto end }
+//	...
+//	err = e1
+//	if err != nil { return err }   // always taken here
+//
+// A path-insensitive analysis sees the false edge of the last test and reports a path that cannot happen. The solver
+// therefore skips edges that a small must-analysis proves infeasible: per local variable it tracks "known nil" /
+// "known non-nil" from nil comparisons on the path, through plain copies (`a = b`, `a, b = nil, e`), the nil literal
+// and package-level error values (sentinels are never nil); any other assignment forgets the variable. An edge is
+// infeasible only when the tested variable's value is known on EVERY path to the test and contradicts the edge.
+
+type nilVal uint8
+
+const (
+	nvUnknown nilVal = iota
+	nvNil
+	nvNonNil
+)
+
+type nilState map[types.Object]nilVal
+
+func (fl *Flow) infeasibleEdges() map[[2]int32]bool {
+	if fl.infeasible != nil {
+		return fl.infeasible
+	}
+	fl.infeasible = map[[2]int32]bool{}
+	info := fl.info
+	blocks := fl.G.Blocks
+	if len(blocks) == 0 {
+		return fl.infeasible
+	}
+	local := func(e ast.Expr) types.Object {
+		v, ok := objOfIdent(info, e).(*types.Var)
+		if !ok || v.IsField() || v.Pkg() == nil || v.Parent() == v.Pkg().Scope() {
+			return nil
+		}
+		switch v.Type().Underlying().(type) {
+		case *types.Interface, *types.Pointer, *types.Map, *types.Slice, *types.Signature, *types.Chan:
+			return v
+		}
+		return nil
+	}
+	valueOf := func(e ast.Expr, s nilState) nilVal {
+		e = ast.Unparen(e)
+		if isNilIdent(info, e) {
+			return nvNil
+		}
+		if o := local(e); o != nil {
+			return s[o]
+		}
+		// a package-level error value (sql.ErrNoRows, os.ErrNotExist, config.ErrXxx)
+		var o types.Object
+		switch x := e.(type) {
+		case *ast.Ident:
+			o = info.Uses[x]
+		case *ast.SelectorExpr:
+			o = info.Uses[x.Sel]
+		}
+		if v, ok := o.(*types.Var); ok && !v.IsField() && v.Pkg() != nil && v.Parent() == v.Pkg().Scope() && types.Identical(v.Type(), types.Universe.Lookup("error").Type()) && strings.HasPrefix(v.Name(), "Err") {
+			return nvNonNil
+		}
+		if u, ok := e.(*ast.UnaryExpr); ok && u.Op == token.AND {
+			return nvNonNil
+		}
+		return nvUnknown
+	}
+	transfer := func(n ast.Node, s nilState) nilState {
+		// anything that takes the address of a tracked variable, or assigns it, changes what we know
+		out := s
+		cloned := false
+		set := func(o types.Object, v nilVal) {
+			if !cloned {
+				c := nilState{}
+				for k, x := range out {
+					c[k] = x
+				}
+				out = c
+				cloned = true
+			}
+			if v == nvUnknown {
+				delete(out, o)
+			} else {
+				out[o] = v
+			}
+		}
+		ast.Inspect(n, func(m ast.Node) bool {
+			switch x := m.(type) {
+			case *ast.FuncLit:
+				// a closure may assign captured variables when it runs: forget what it mentions on the left of an assignment
+				ast.Inspect(x.Body, func(k ast.Node) bool {
+					if as, ok := k.(*ast.AssignStmt); ok {
+						for _, l := range as.Lhs {
+							if o := local(l); o != nil {
+								set(o, nvUnknown)
+							}
+						}
+					}
+					return true
+				})
+				return false
+			case *ast.AssignStmt:
+				if len(x.Lhs) == len(x.Rhs) {
+					vals := make([]nilVal, len(x.Rhs))
+					for i, r := range x.Rhs {
+						vals[i] = valueOf(r, out)
+					}
+					for i, l := range x.Lhs {
+						if o := local(l); o != nil {
+							set(o, vals[i])
+						}
+					}
+				} else {
+					for _, l := range x.Lhs {
+						if o := local(l); o != nil {
+							set(o, nvUnknown)
+						}
+					}
+				}
+			case *ast.UnaryExpr:
+				if x.Op == token.AND {
+					if o := local(x.X); o != nil {
+						set(o, nvUnknown)
+					}
+				}
+			case *ast.RangeStmt:
+				for _, e := range []ast.Expr{x.Key, x.Value} {
+					if e != nil {
+						if o := local(e); o != nil {
+							set(o, nvUnknown)
+						}
+					}
+				}
+			case *ast.DeclStmt:
+				if gd, ok := x.Decl.(*ast.GenDecl); ok {
+					for _, sp := range gd.Specs {
+						if vs, ok := sp.(*ast.ValueSpec); ok {
+							for i, nm := range vs.Names {
+								o := info.Defs[nm]
+								if o == nil {
+									continue
+								}
+								if _, isVar := o.(*types.Var); !isVar {
+									continue
+								}
+								if i < len(vs.Values) {
+									set(o, valueOf(vs.Values[i], out))
+								} else if len(vs.Values) == 0 {
+									if local(nm) != nil {
+										set(o, nvNil) // zero value
+									}
+								}
+							}
+						}
+					}
+				}
+			}
+			return true
+		})
+		return out
+	}
+	// the test at the end of a block: (variable, true when the TRUE edge means "is nil")
+	testOf := func(b *cfg.Block) (types.Object, bool, bool) {
+		if len(b.Succs) != 2 || len(b.Nodes) == 0 {
+			return nil, false, false
+		}
+		last, ok := b.Nodes[len(b.Nodes)-1].(ast.Expr)
+		if !ok {
+			return nil, false, false
+		}
+		be, ok := ast.Unparen(last).(*ast.BinaryExpr)
+		if !ok || (be.Op != token.EQL && be.Op != token.NEQ) {
+			return nil, false, false
+		}
+		var x ast.Expr
+		if isNilIdent(info, be.Y) {
+			x = be.X
+		} else if isNilIdent(info, be.X) {
+			x = be.Y
+		}
+		if x == nil {
+			return nil, false, false
+		}
+		o := local(x)
+		if o == nil {
+			return nil, false, false
+		}
+		return o, be.Op == token.EQL, true
+	}
+	in := map[*cfg.Block]nilState{}
+	reached := map[*cfg.Block]bool{blocks[0]: true}
+	in[blocks[0]] = nilState{}
+	work := []*cfg.Block{blocks[0]}
+	steps := 0
+	for len(work) > 0 && steps < 20000 {
+		steps++
+		b := work[0]
+		work = work[1:]
+		s := in[b]
+		for _, n := range b.Nodes {
+			s = transfer(n, s)
+		}
+		tv, trueMeansNil, isTest := testOf(b)
+		for i, succ := range b.Succs {
+			t := s
+			if isTest {
+				edgeNil := trueMeansNil == (i == 0)
+				want := nvNonNil
+				if edgeNil {
+					want = nvNil
+				}
+				// (an edge that contradicts what is known SO FAR is still followed: knowledge only shrinks while the
+				// fixpoint is computed, so the edge may turn out feasible; the verdict is taken from the final states)
+				c := nilState{}
+				for k, x := range s {
+					c[k] = x
+				}
+				c[tv] = want
+				t = c
+			}
+			if !reached[succ] {
+				reached[succ] = true
+				in[succ] = t
+				work = append(work, succ)
+				continue
+			}
+			// must-join: keep only what both agree on
+			old := in[succ]
+			changed := false
+			nw := nilState{}
+			for k, x := range old {
+				if t[k] == x {
+					nw[k] = x
+				} else {
+					changed = true
+				}
+			}
+			if changed {
+				in[succ] = nw
+				work = append(work, succ)
+			}
+		}
+	}
+	if steps >= 20000 {
+		return fl.infeasible // no conclusion
+	}
+	for _, b := range blocks {
+		if !reached[b] {
+			continue
+		}
+		tv, trueMeansNil, isTest := testOf(b)
+		if !isTest {
+			continue
+		}
+		s := in[b]
+		for _, n := range b.Nodes {
+			s = transfer(n, s)
+		}
+		cur := s[tv]
+		if cur == nvUnknown {
+			continue
+		}
+		for i := range b.Succs {
+			edgeNil := trueMeansNil == (i == 0)
+			if (cur == nvNil) != edgeNil {
+				fl.infeasible[[2]int32{b.Index, int32(i)}] = true
+			}
+		}
+	}
+	return fl.infeasible
 }
